@@ -665,7 +665,9 @@ def r5(chk, prog, m):
                 else:
                     chk.refuted(rid, fname, sig, phi.locstr(), msg or "no probe step found")
         if not found:
-            chk.refuted(rid, fname, "probe index in %s" % fname, f.entry.term.locstr(), "no probe loop starting at h % size found")
+            chk.undecided(rid, fname, "probe index in %s" % fname, f.entry.term.locstr(),
+                          "no probe loop over an index that starts at h % size was recognised (the slots may be walked in another "
+                          "form, e.g. through a pointer); the bound of the walk is not decided by this rule")
     # growth arithmetic: t->size * 2 only when size <= INT_MAX / 2
     f = m.functions["lh_table_insert_w_hash"]
     n_obl += 1
